@@ -13,7 +13,7 @@ import (
 // exact duplicates); every produced operation is recorded in the case so that a replay needs no generator.
 func c14gen(c *hx.Ctx, i int) (*c14case, func(r *c14run, k int) *c14op) {
 	rng := c.Rng
-	flavour := []string{"plain", "plain", "plain", "ceremony", "ceremony", "gas", "sync", "plain", "ceremony", "gas"}[i%10]
+	flavour := []string{"plain", "plain", "priogas", "ceremony", "ceremony", "gas", "sync", "plain", "ceremony", "gas"}[i%10]
 	if i%40 == 26 {
 		flavour = "flood"
 	}
@@ -44,6 +44,19 @@ func c14gen(c *hx.Ctx, i int) (*c14case, func(r *c14run, k int) *c14op) {
 	if flavour == "ceremony" {
 		cs.Ceremony = 70 + rng.Intn(60)
 		nOps = 30 + rng.Intn(25)
+	}
+	if flavour == "priogas" {
+		// long session, every sender a candidate holding chains [big regular tx ..., big ceremony tx]: the PRIORITY
+		// phase of the builder itself runs into the gas cap, with the crossing chain two or more transactions long
+		cs.NS = 3 + rng.Intn(4)
+		cs.Cand, cs.Bal = nil, nil
+		for s := 0; s < cs.NS; s++ {
+			cs.Cand = append(cs.Cand, true)
+			cs.Bal = append(cs.Bal, 100000)
+		}
+		cs.Cfg = c14cfg{ES: -1, QS: -1, AEL: 0, AQL: 0, RIC: cs.Cfg.RIC}
+		cs.Ceremony, cs.Net = 70, 0
+		nOps = 18 + rng.Intn(14)
 	}
 	if flavour == "flood" {
 		cs.NS = 3
@@ -162,6 +175,41 @@ func c14gen(c *hx.Ctx, i int) (*c14case, func(r *c14run, k int) *c14op) {
 				op = c14op{K: "build"}
 			default:
 				op = c14op{K: "ext", To: "b", Mp: k%7 == 0, Tx: &c14tx{S: 1 + k%2, N: uint32(k/2 + 1), Ty: types.SendTx, Fee: 10, Amt: 1}}
+			}
+		} else if flavour == "priogas" {
+			switch {
+			case k < 3:
+				op = c14op{K: "mine", Dt: []int64{35, 40, 45}[k]} // FlipLottery, ShortSession, LongSession
+			default:
+				switch p := rng.Intn(100); {
+				case p < 22:
+					op = c14op{K: "build"}
+				case p < 27:
+					op = c14op{K: "mine", Dt: 20}
+				default:
+					s := rng.Intn(cs.NS)
+					a := r.w.addrs[s]
+					base := r.w.B.app.State.GetNonce(a)
+					hasPrio := map[uint16]bool{}
+					if r.last != nil {
+						if q := r.last.Exec[a]; len(q) > 0 {
+							base = q[len(q)-1].AccountNonce
+						}
+						for _, tx := range r.last.Exec[a] {
+							hasPrio[tx.Type] = true
+						}
+					}
+					t := c14tx{S: s, N: base + 1, E: r.w.B.app.State.Epoch(), Ty: types.SendTx, Fee: 10, Amt: 1, Pl: 20000 + rng.Intn(200)*1000 + rng.Intn(1000)}
+					if base >= 1 && rng.Intn(10) < 6 {
+						t.Ty = []uint16{types.EvidenceTx, types.SubmitLongAnswersTx}[rng.Intn(2)]
+						t.Fee, t.Amt = 0, 0
+						if rng.Intn(4) == 0 {
+							t.Pl = 0
+						}
+						c.Hit("gen:big-ceremony-tx")
+					}
+					op = c14op{K: "ext", Tx: &t, To: []string{"b", "b", "ab"}[rng.Intn(3)]}
+				}
 			}
 		} else {
 			syncing := r.w.B.pool.IsSyncing()
